@@ -22,6 +22,7 @@ import (
 	"path/filepath"
 	"runtime/debug"
 	"sort"
+	"sync"
 
 	mwdb "massnet.org/mass-wallet/masswallet/db"
 )
@@ -29,6 +30,7 @@ import (
 var errInjected = errors.New("injected storage fault")
 
 type faultDB struct {
+	mu    sync.Mutex // the follower / worker goroutines of a booted wallet use the database concurrently
 	inner mwdb.DB
 	path  string
 
@@ -70,6 +72,8 @@ func (f *faultDB) disarm() (bool, string, int) {
 }
 
 func (f *faultDB) tick(kind string) error {
+	f.mu.Lock()
+	defer f.mu.Unlock()
 	f.kinds[kind]++
 	if !f.armed {
 		return nil
@@ -174,8 +178,10 @@ func (t *faultTx) Commit() error {
 	if err := t.w.Commit(); err != nil {
 		return err
 	}
+	t.f.mu.Lock()
 	k := t.f.commits
 	t.f.commits++
+	t.f.mu.Unlock()
 	if t.f.onCommit != nil {
 		t.f.onCommit(k)
 	}
